@@ -365,3 +365,22 @@ def replay(case) -> List[Violation]:
     case["vars"] = [tuple(v) for v in case["vars"]]
     bad = judge(case, scratch)
     return [Violation(bad[0], bad[1], case)] if bad else []
+
+
+# ---------------------------------------------------------------------------------------------
+# environment grid (mc/envgrid.py): the expansion of a sweep is a function of its definition in every process
+
+def env_cases(tier: str):
+    from mc import envgrid
+
+    cs = [c for c in cases("quick") if not isinstance(c, list)]
+    return envgrid.pick(cs, 80 if tier == "quick" else 600)
+
+
+def env_observe(case):
+    from mc import envgrid
+
+    scratch = envgrid.scratch()
+    got = run_real(case, scratch)
+    bad = judge(case, scratch)
+    return envgrid.norm({"got": got, "judged": bad[0] if bad else None}, scratch)
